@@ -9,7 +9,7 @@ Monitor: quiescent-state checker for {scan worker analyses F from disk} || {didO
       notification is placed before / after it deterministically; plus unsynchronised runs with
       injected delays where the event log (cfg hook) tells which order occurred.
 """
-import os, shutil, time
+import json, os, shutil, time
 
 from ..common import Inconclusive, write_tree, hash_str
 from ..lsp import LSP, uri_to_path
@@ -214,7 +214,7 @@ def server_level(ctx, quick):
     orders_seen = set()
     n = 3 if quick else 40
     for it in range(n):
-        for kind in ("conftest", "test"):
+        for kind in ("conftest", "test", "plugin_pkg"):
             for placement in ("open_first", "visit_first", "unsynchronised"):
                 for further_kind in ("new_text", "disk_text"):
                     if quick and (it + hash_str(kind + placement + further_kind)) % 3 != 0 and not (it == 0):
@@ -228,9 +228,18 @@ def server_level(ctx, quick):
 def one_server_run(ctx, kind, placement, further_kind, orders_seen, it):
     root = ctx.scratch("srv")
     disk, buf, further = variants(kind, ctx.rng)
-    rel = "pkg/conftest.py" if kind == "conftest" else "pkg/test_f.py"
+    rel = {"conftest": "pkg/conftest.py", "test": "pkg/test_f.py", "plugin_pkg": "myplug/test_inside.py"}[kind]
     files = {rel: disk, "pkg/test_other.py": HDR + fxs(["shared"], "other") + "def test_o(shared):\n    pass\n",
              "conftest.py": HDR + fxs(["shared"], "root")}
+    if kind == "plugin_pkg":
+        # the project is itself a pytest plugin (package entry point), installed editable into its own venv; F is a test
+        # module inside the plugin package: the scan's later venv / plugin phase walks that package again
+        sp = ".venv/lib/python3.12/site-packages"
+        files.update({"myplug/__init__.py": HDR + fxs(["from_plugin_pkg"], "plugin"),
+                      "myplug/helpers.py": HDR + fxs(["plug_helper"], "plugin"),
+                      f"{sp}/myplug-0.1.dist-info/entry_points.txt": "[pytest11]\nmp = myplug\n",
+                      f"{sp}/myplug-0.1.dist-info/direct_url.json": json.dumps({"url": "file://" + root, "dir_info": {"editable": True}}),
+                      f"{sp}/__editable__.myplug-0.1.pth": root + "\n", ".venv/pyvenv.cfg": "home = /usr/bin\n"})
     # filler so that the unsynchronised case really races
     for i in range(60):
         files[f"bulk/test_b{i}.py"] = "def test_b(shared):\n    pass\n"
@@ -241,6 +250,10 @@ def one_server_run(ctx, kind, placement, further_kind, orders_seen, it):
     env = {"VERIF_EVENT_LOG": evlog, "VERIF_DELAY": f"{ctx.seed + it}:200000"}
     if placement != "unsynchronised":
         env.update({"VERIF_SCAN_GATE": gate, "VERIF_SCAN_GATE_MATCH": "/" + rel})
+    hold_phase = kind == "plugin_pkg" and placement == "visit_first"
+    if hold_phase:
+        # the editor's change arrives after the scan's parallel phase visited F but before its venv / plugin phase
+        env["VERIF_SCAN_PHASE_GATE"] = gate
     # the editor may name the workspace (and its documents) through a symbolic link
     via_link = ctx.rng.random() < 0.34
     lroot = None
@@ -266,9 +279,14 @@ def one_server_run(ctx, kind, placement, further_kind, orders_seen, it):
             wait_file(srv, os.path.join(gate, "visit.0"))
             open(os.path.join(gate, "go.0"), "w").close()
             wait_file(srv, os.path.join(gate, "done.0"))
+            if hold_phase:
+                wait_file(srv, os.path.join(gate, "phase2_done.reached"))
             before = srv.seq
             srv.did_open(F, buf)
             srv.wait_diagnostics(F, before, timeout=30)
+            if hold_phase:
+                open(os.path.join(gate, "phase2_done.go"), "w").close()
+                tag = tag + ("held_before_venv_phase",)
         else:
             before = srv.seq
             srv.did_open(F, buf)
